@@ -61,6 +61,8 @@ fn gen_data(ctx: &mut Ctx) -> Vec<u8> {
 }
 
 pub fn run(ctx: &mut Ctx) {
+    // pure parser calls: a case that takes this long is a busy loop (the watchdog names it)
+    set_stall_limit(40);
     quiet_panics();
     let rt = tokio::runtime::Builder::new_current_thread().enable_all().build().unwrap();
 
@@ -239,6 +241,7 @@ pub fn run(ctx: &mut Ctx) {
         // IP header skipping on the quoted part (offset 8) and on the raw packet
         for body in [p.as_slice(), if p.len() > 8 { &p[8..] } else { &p[0..0] }] {
             let q = format!("c11 skip {} {}", *v6 as u8, hex(body));
+            begin_case(&q);
             match catch(|| verif::skip_ip_header(*v6, body)) {
                 Ok(None) => ctx.emit(&q, "none"),
                 Ok(Some((proto, rest))) => ctx.emit(&q, &format!("{} {}", proto, hex(&rest))),
@@ -249,6 +252,7 @@ pub fn run(ctx: &mut Ctx) {
             }
         }
         let q = format!("c11 responded {} {}", *v6 as u8, h);
+        begin_case(&q);
         match catch(|| verif::icmp_responded(*v6, p)) {
             Ok(None) => {
                 ctx.emit(&q, "rejected");
@@ -268,6 +272,7 @@ pub fn run(ctx: &mut Ctx) {
             }
         }
         let q = format!("c11 deser {} {}", *v6 as u8, h);
+        begin_case(&q);
         match catch(|| verif::icmp_deserialize_view(*v6, p)) {
             Ok(None) => ctx.emit(&q, "rejected"),
             Ok(Some((t, c))) => ctx.emit(&q, &format!("{} {}", t, c)),
@@ -275,6 +280,7 @@ pub fn run(ctx: &mut Ctx) {
         }
         let peer: IpAddr = if *v6 { "2001:db8::7".parse().unwrap() } else { "198.51.100.7".parse().unwrap() };
         let q = format!("c11 encreply {} {} {}", *v6 as u8, ip_tokens(&peer), h);
+        begin_case(&q);
         match catch(|| verif::icmp_encode_reply(*v6, peer, p)) {
             Ok(None) => ctx.emit(&q, "rejected"),
             Ok(Some(None)) => ctx.emit(&q, "none"),
@@ -327,6 +333,7 @@ pub fn run(ctx: &mut Ctx) {
                 q.push(' ');
                 q.push_str(&hex(c));
             }
+            begin_case(&q);
             let c2 = chunks.clone();
             match catch(std::panic::AssertUnwindSafe(|| rt.block_on(verif::icmp_decode_stream(c2)))) {
                 Ok(reqs) => {
@@ -355,6 +362,7 @@ pub fn run(ctx: &mut Ctx) {
             }
         }
     }
+    set_stall_limit(600);
     live_icmp(ctx);
     wire_ttl(ctx);
 }
@@ -365,6 +373,8 @@ pub fn run(ctx: &mut Ctx) {
 enum LOp {
     /// client, id, seq, data size: an echo request to 127.0.0.1 (the kernel answers it)
     Req(usize, u16, u16, u16),
+    /// client, id, seq: an echo request with TTL 0, which the kernel refuses to send (the client is told, nothing is pending)
+    ReqUnsendable(usize, u16, u16),
     /// inject an echo reply built from request k: 0 same data, 1 shorter data, 2 longer data, 3 other data, 4 other id
     Inj(usize, u8),
     /// inject an ICMP error of this type quoting request k
@@ -433,7 +443,11 @@ fn live_icmp(ctx: &mut Ctx) {
                     next_seq - 1
                 };
                 reqs.push(ops.len());
-                ops.push(LOp::Req(c, id_base.wrapping_add(h as u16), seq, size));
+                if ctx.rng.chance(1, 6) {
+                    ops.push(LOp::ReqUnsendable(c, id_base.wrapping_add(h as u16), seq));
+                } else {
+                    ops.push(LOp::Req(c, id_base.wrapping_add(h as u16), seq, size));
+                }
             } else if r < 55 {
                 ops.push(LOp::Inj(*ctx.rng.pick(&reqs), ctx.rng.below(5) as u8));
             } else if r < 65 {
@@ -465,6 +479,12 @@ fn live_icmp(ctx: &mut Ctx) {
                 LOp::Take(0), LOp::Take(1),
             ],
         ];
+        let mut directed = directed;
+        // a request that could not be sent leaves nothing behind: a reply that would match it is nobody's, now and after the timeout
+        directed.push(vec![
+            LOp::ReqUnsendable(0, idh, 0), LOp::Inj(0, 0), LOp::Take(0), LOp::Req(1, idh, 1, 8), LOp::Take(1), LOp::Adv(T_MS + 1), LOp::Inj(0, 0), LOp::Err(0, 11),
+            LOp::Take(0), LOp::Take(1),
+        ]);
         if h < directed.len() {
             ops = directed[h].clone();
             ctx.stat("live_directed_staggered_deadlines");
@@ -519,6 +539,20 @@ fn live_icmp(ctx: &mut Ctx) {
                             return Err(format!("request not sent: {}", st));
                         }
                         toks.push(format!("req.{}.{}.{}.{}", c, id, seq, hex(&wire[8..])));
+                        wires[i] = wire;
+                        outs.push("-".to_string());
+                    }
+                    LOp::ReqUnsendable(c, id, seq) => {
+                        let mut rec = id.to_be_bytes().to_vec();
+                        crate::c06::put_ip16(&mut rec, &"127.0.0.1".parse().unwrap());
+                        rec.extend_from_slice(&seq.to_be_bytes());
+                        rec.push(0);
+                        rec.extend_from_slice(&8u16.to_be_bytes());
+                        let (st, wire) = v.clients[*c].request(rec).await;
+                        if st == "sent" {
+                            return Err("unavailable: this kernel sends echo requests with TTL 0".into());
+                        }
+                        toks.push(format!("bad.{}.{}.{}.{}", c, id, seq, hex(&wire[8..])));
                         wires[i] = wire;
                         outs.push("-".to_string());
                     }
